@@ -195,7 +195,9 @@ func runOp(c driver.Case) driver.Result {
 		}
 		switch c.Get("fault") {
 		case "subscribe-panics":
-			o.Tweak = func(_ int, s *src.Source) { s.PanicInSubscribe = "the subscribe function panics after playing its script" }
+			o.Tweak = func(_ int, s *src.Source) {
+				s.PanicInSubscribe = "the subscribe function panics after playing its script"
+			}
 		case "teardown-panics":
 			o.Tweak = func(_ int, s *src.Source) { s.PanicInTeardown = "the teardown of the producer panics" }
 		}
